@@ -976,6 +976,8 @@ def run(ctx, rep):
             rep.count("vec-branch:" + info["branch"])
             if info["branch"] == "antiparallel":
                 rep.count("antiparallel:o-" + ("observed" if info.get("o_observed") else "unobserved"))
+        for e in info.get("edits", ()):
+            rep.count("parent-edit:" + e)
         if viol:
             found = True
             sig = "C11:" + (kind.split(":")[0] + ":" if kind.split(":")[0] in ("vec", "axis") else "") + viol[0]
